@@ -330,6 +330,14 @@ func (in *instr) pre(c *astutil.Cursor) bool {
 			in.useSim, in.changed = true, true
 			stats["rewrite.filewrite"]++
 		}
+		if recv, name, ok := in.methodOn(v.Fun); ok && recv == "net.Dialer" && (name == "DialContext" || name == "Dial") {
+			// d.DialContext(ctx, network, addr) -> verifsimnet.DialerDialContext(d.Timeout, ctx, network, addr)
+			se := v.Fun.(*ast.SelectorExpr)
+			v.Args = append([]ast.Expr{&ast.SelectorExpr{X: se.X, Sel: ast.NewIdent("Timeout")}}, v.Args...)
+			v.Fun = &ast.SelectorExpr{X: ast.NewIdent("verifsimnet"), Sel: ast.NewIdent("Dialer" + name)}
+			in.useNet, in.changed = true, true
+			stats["rewrite.net"]++
+		}
 		if p, name, ok := in.pkgFunc(v.Fun); ok {
 			switch {
 			case p == "net" && name == "Listen":
@@ -338,6 +346,13 @@ func (in *instr) pre(c *astutil.Cursor) bool {
 				stats["rewrite.net"]++
 			case p == "net" && name == "LookupIP":
 				v.Fun = &ast.SelectorExpr{X: ast.NewIdent("verifsimnet"), Sel: ast.NewIdent("LookupIP")}
+				in.useNet, in.changed = true, true
+				stats["rewrite.net"]++
+			case p == "net" && (name == "Dial" || name == "DialTimeout"):
+				// any other way of opening a TCP connection ends on the simulated
+				// network as well (a refactoring of the dial path must not take the
+				// system out of the simulation)
+				v.Fun = &ast.SelectorExpr{X: ast.NewIdent("verifsimnet"), Sel: ast.NewIdent("Net" + name)}
 				in.useNet, in.changed = true, true
 				stats["rewrite.net"]++
 			case p == "golang.org/x/crypto/ssh" && name == "Dial":
